@@ -8,7 +8,10 @@
                   call, slot : the call prefix that was typed, idx : Signature.index + 1 (0 = None),
                   bs / bsx : bracket_start reported / position of "(" in the text]
    [k |-> "doc",  raw : docstring(raw=True), exp : inspect.getdoc() or "" , full : docstring(),
-                  sig : to_string() of the signatures joined by newlines]
+                  sig : to_string() of the signatures joined by newlines,
+                  cf  : whether the composition clause is demanded (it is for the Name of the definition;
+                        the Signature object inside a call prepends the unbound signature of a method,
+                        which the property does not decide)]
 
    Every event is judged against the Reference operators of Signature.tla (Acceptable, ...).
    Clause codes (TLC wraps printed values at 80 columns, so the verdict line must stay short):
@@ -45,7 +48,7 @@ SigShapes(e) ==
         THEN {"sK"} ELSE {})
 DocClauses(e) ==
      (IF e.raw # e.exp THEN {"DR"} ELSE {})
-  \cup (IF e.full # (IF e.raw = <<>> THEN e.sig ELSE IF e.sig = <<>> THEN e.raw ELSE e.sig \o <<NL, NL>> \o e.raw)
+  \cup (IF e.cf /\ e.full # (IF e.raw = <<>> THEN e.sig ELSE IF e.sig = <<>> THEN e.raw ELSE e.sig \o <<NL, NL>> \o e.raw)
         THEN {"DF"} ELSE {})
 Clauses(e) == IF e.k = "sig" THEN SigClauses(e) ELSE DocClauses(e)
 WhyOf(e)   == Clauses(e) \cup (IF e.k = "sig" THEN SigShapes(e) ELSE {})
